@@ -27,7 +27,7 @@ type vdWorld struct {
 	inStore      map[uuid.UUID]int // commit -> origin of the stored value
 	delegateHas  map[uuid.UUID]bool
 	putSticks    map[uuid.UUID]bool // a put of this commit really completes the entry
-	getFailAt    int               // the k-th store get fails (0 = never)
+	getFailAt    int                // the k-th store get fails (0 = never)
 	gets         int
 	delegateFail bool
 	putFail      bool
@@ -58,7 +58,7 @@ func (w *vdWorld) storeGet(_ context.Context, keys []vdKey) ([]vdVal, []vdKey, e
 
 func (w *vdWorld) delegate(_ context.Context, keys []vdKey) ([]vdVal, error) {
 	w.delegateN++
-	w.delegateKeys = append([]vdKey(nil), keys...)
+	w.delegateKeys = append(w.delegateKeys, keys...)
 	if w.delegateFail {
 		w.failed = true
 		return nil, vdErrStub
@@ -126,7 +126,9 @@ func VerifLemma_C09D_Provider() {
 	vals, err := p.getValuesForKeys(context.Background(), keys)
 	verifCover("returned")
 	verifAssert(!w.failed || err != nil, "a failing store get, delegate or put is reported")
-	verifAssert(!dup || err != nil, "duplicate keys are an error")
+	// ("The input ModuleKeys are expected to be unique ... The implementation MAY error if this is not the case": duplicate
+	// keys are not required to fail; if they do not, the result must still be right - checked below)
+	_ = dup
 	missingAfter := false
 	for _, k := range keys {
 		if _, ok := w.inStore[k.commit]; !ok {
@@ -135,7 +137,7 @@ func VerifLemma_C09D_Provider() {
 	}
 	verifAssert(!missingAfter || err != nil, "a key that is still not in the store after the put is an error, never a partial result")
 	if err != nil {
-		verifAssert(vals == nil, "no values are returned together with an error")
+		verifAssert(len(vals) == 0, "no values are returned together with an error")
 		return
 	}
 	verifCover("success")
@@ -143,18 +145,13 @@ func VerifLemma_C09D_Provider() {
 	for i := range keys {
 		if i < len(vals) {
 			verifAssert(vals[i].commit == keys[i].commit, "nil error: values are in key order, each for its key's commit")
-			if wasInStore[keys[i].commit] {
-				verifAssert(vals[i].origin == 1, "a key that was cached is served from the store")
-			} else {
-				verifAssert(vals[i].origin == 2, "a key that was not cached is fetched from the delegate and re-read from the store")
+			if !wasInStore[keys[i].commit] {
+				verifAssert(vals[i].origin == 2 && w.inStore[keys[i].commit] == 2, "a key that was not cached comes from the delegate and is in the store afterwards")
 			}
 		}
 	}
-	// the delegate is asked exactly for the missing keys, and exactly its answer is put
-	verifAssert(w.delegateN == 1 && w.putN == 1, "delegate and put are each called once")
-	for _, k := range w.delegateKeys {
-		verifAssert(!wasInStore[k.commit], "the delegate is only asked for keys that were not cached")
-	}
+	// every key that was not cached must have been requested from the delegate (it cannot come from anywhere else).
+	// Not specified: how often delegate/put are called, whether cached keys are also re-fetched, what else is put.
 	for _, k := range keys {
 		if !wasInStore[k.commit] {
 			asked := false
@@ -165,8 +162,5 @@ func VerifLemma_C09D_Provider() {
 			}
 			verifAssert(asked, "every key that was not cached is requested from the delegate")
 		}
-	}
-	for _, v := range w.putVals {
-		verifAssert(v.origin == 2, "only delegate values are put")
 	}
 }
